@@ -64,6 +64,8 @@ CHECKS = {
         "v-n3t1-rasync-cc": consts(3, 1, '{"rasync", "cc"}', BOTH, NO, 2, False),
         "v-n3t2-rsync-rasync": consts(3, 2, '{"rsync", "rasync"}', BOTH, NO, 2, False),
         "v-n3t2-ret-c3": consts(3, 2, '{"ret"}', BOTH, BOTH, 3, False),
+        "v-n3t1-ret-c3": consts(3, 1, '{"ret"}', BOTH, BOTH, 3, False),
+        "v-n3t1-rsync-raise": consts(3, 1, '{"rsync", "raise"}', BOTH, NO, 2, False),
     },
 }
 # exhaustive scenario emission (quiescent-step environment): name -> (constants, cap per tier)
